@@ -174,6 +174,43 @@ def escape_extra(repo: Path):
     return out
 
 
+def ns_attr_quoted(repo: Path) -> str:
+    """how `create_request` writes the service type into `xmlns:u=`: through `quoteattr(...)` (true)
+    or pasted between double quotes (false)"""
+    mod = extract.parse(repo, "async_upnp_client/client.py")
+    fn = None
+    for node in ast.walk(mod):
+        if isinstance(node, ast.FunctionDef) and node.name == "create_request":
+            fn = node
+    if fn is None:
+        raise Untranslatable("create_request not found")
+    found = []
+    for js in [n for n in ast.walk(fn) if isinstance(n, ast.JoinedStr)]:
+        vals = js.values
+        for i, v in enumerate(vals):
+            if not (isinstance(v, ast.Constant) and isinstance(v.value, str) and i + 1 < len(vals)):
+                continue
+            nxt = vals[i + 1]
+            if not isinstance(nxt, ast.FormattedValue) or nxt.conversion != -1 or nxt.format_spec is not None:
+                continue
+            after = vals[i + 2].value if i + 2 < len(vals) and isinstance(vals[i + 2], ast.Constant) else ""
+            if v.value.endswith(" xmlns:u="):
+                e = nxt.value
+                if (isinstance(e, ast.Call) and _is_name(e.func, "quoteattr") and len(e.args) == 1 and not e.keywords
+                        and _is_name(e.args[0], "service_type") and after.startswith(">")):
+                    found.append("true")
+                else:
+                    raise Untranslatable("xmlns:u value: " + ast.dump(e)[:200])
+            elif v.value.endswith(' xmlns:u="'):
+                if _is_name(nxt.value, "service_type") and after.startswith('">'):
+                    found.append("false")
+                else:
+                    raise Untranslatable("xmlns:u value: " + ast.dump(nxt.value)[:200])
+    if len(found) != 1:
+        raise Untranslatable(f"{len(found)} xmlns:u attributes in create_request")
+    return found[0]
+
+
 def exc_ancestors(repo: Path):
     mod = extract.parse(repo, "async_upnp_client/exceptions.py")
     bases = {}
@@ -209,12 +246,15 @@ def gen(repo: Path) -> str:
     rows = type_table(repo)
     ents = escape_extra(repo)
     excs = exc_ancestors(repo)
+    nsq = ns_attr_quoted(repo)
     return (
         extract.HEADER.format(src="async_upnp_client/const.py, client.py, exceptions.py")
         + "import Upnp.Model.C06Val\nnamespace Upnp.Gen.C06Types\nopen Upnp.C06\n\n"
         + "/-- const.STATE_VARIABLE_TYPE_MAPPING -/\ndef table : List TypeRow := [\n" + ",\n".join(rows) + "]\n\n"
         + "/-- entity table passed to `escape` in UpnpAction._format_request_args -/\n"
         + "def escapeExtra : List (Char × Str) := [" + ", ".join(ents) + "]\n\n"
+        + "/-- `create_request` writes the service type into `xmlns:u=` through `quoteattr` -/\n"
+        + f"def nsAttrQuoted : Bool := {nsq}\n\n"
         + "/-- library exception classes with their library ancestors (reflexive, sorted) -/\n"
         + "def excAncestors : List (String × List String) := [\n" + ",\n".join(excs) + "]\n\n"
         + "end Upnp.Gen.C06Types\n"
